@@ -57,7 +57,7 @@ def make_cases(ctx, n):
             # the archive already holds an earlier version of (a variant of) this tree: metadata-only
             # changes (chmod, chown, retarget) and content changes must all show in the new version
             earlier, _ = gen.mutate_tree(ctx.rng, tree)
-            steps += [{"op": "mktree", "path": "src", "tree": earlier}, {"op": "backup", "opts": gen.rand_opts(ctx.rng)}]
+            steps += [{"op": "mktree", "path": "src", "tree": earlier}, {"op": "walk"}, {"op": "backup", "opts": gen.rand_opts(ctx.rng)}]
             band = 1
         steps += [{"op": "mktree", "path": "src", "tree": tree}, {"op": "snap", "path": "src"},
                   {"op": "walk"}, {"op": "backup", "opts": opts}, {"op": "list", "band": band}, {"op": "arch"},
@@ -185,6 +185,38 @@ Definition results : list N := """ + gallina_list(defs) + ".\nEval vm_compute in
                                     f"vs enc_time_floor / file_addrs / read_addrs): code {nums[1]}", {"tree": c["tree"], "opts": c["opts"]})
                 agreed += nums[0]
     ctx.layer("L2-walk+codec", agreed, len(items))
+    # ---- L4: init, backup and restore as programs over storage (restore's reads as a set)
+    from .. import l4
+    hs = []
+    for c in cases[:: (2 if quick else 4)]:
+        r = res.get(c["id"])
+        if r is None or any(isinstance(x, dict) and (x.get("panic") or x.get("result") == "err") for x in r):
+            continue
+        names = l4.Names()
+        for st, rs in zip(c["steps"], r):
+            if isinstance(rs, dict) and "arch" in rs:
+                names.add_arch(rs["arch"])
+            if isinstance(rs, dict) and "trace" in rs:
+                names.add_trace(rs["trace"])
+        h = l4.History(c["id"], names)
+        for st, rs in zip(c["steps"], r):
+            if st["op"] in ("init", "mktree", "walk", "backup", "arch", "restore"):
+                if st["op"] == "backup" and "walk" not in [s2["op"] for s2 in c["steps"][:c["steps"].index(st)]]:
+                    h.set_state_from_arch  # (earlier backup without a recorded walk: resynchronise below)
+                h.add(st, rs)
+        hs.append(h)
+    out = l4.evaluate(ctx, "C01h", hs, shards=8 if quick else 16)
+    agreed = total = 0
+    for h in hs:
+        for desc, code in (out.get(h.cid) or []):
+            total += 1
+            if code == 0:
+                agreed += 1
+            else:
+                c = next(x for x in cases if x["id"] == h.cid)
+                ctx.corr_fail("L4", f"case {h.cid}: model and implementation differ at {desc}: code {code}", {"tree": c["tree"], "opts": c["opts"], "steps": c["steps"]})
+                break
+    ctx.layer("L4-backup-restore", agreed, total)
     if cases:
         ctx.sample({"tree_paths": [p for p, _ in gen.tree_paths(cases[0]["tree"])][:12], "opts": cases[0]["opts"]})
     ctx.assumptions += ["runs as root, so owner and group are restored; kernel, jiff, filetime and uzers are modelled by arithmetic only",
